@@ -95,6 +95,7 @@ var flowRules = map[string]flowFn{
 	"error-yields-nil":  func(f *yyflow.Lang, sh map[string]*yyflow.Shape) *report.RuleResult { return f.ErrorYieldsNil() },
 	"no-carrier-escape": func(f *yyflow.Lang, sh map[string]*yyflow.Shape) *report.RuleResult { return f.NoCarrierEscape(sh) },
 	"kind-of-operator":  func(f *yyflow.Lang, sh map[string]*yyflow.Shape) *report.RuleResult { return f.KindOfOperator() },
+	"report-positions":  func(f *yyflow.Lang, sh map[string]*yyflow.Shape) *report.RuleResult { return f.ReportPositions(sh) },
 }
 
 // flows runs the named yyflow rules on their fixtures and on /repo.
@@ -232,6 +233,20 @@ func init() {
 			c.siblings()
 			c.flows_("linear", "order", "pos-span", "leaf-value")
 		},
+	}
+	// C06: semantic errors raised by actions
+	{
+		p := properties["C06"]
+		run := p.Run
+		p.Explanation += " report-positions (yyflow): every semantic error delivered by a grammar action has a constant non-empty message and the Position of a token or of a node whose Position every producing action sets; tables-sync/skeleton-sync: the driver is the stock goyacc driver, which returns non-zero only after calling Error."
+		p.TrustedBase = append(p.TrustedBase, yyTrusted[:2]...)
+		p.Floors = append(p.Floors, report.Floor{Rule: "report-positions", What: "reports", Min: 4}, report.Floor{Rule: "tables-sync", What: "skeleton-funcs", Min: 16})
+		p.Run = func(c *Ctx) {
+			run(c)
+			defer c.cleanup()
+			c.grammarRule("tables-sync", syncRule)
+			c.flowRule("report-positions", flowRules["report-positions"])
+		}
 	}
 	// C03: add the action-level clauses
 	{
